@@ -1777,6 +1777,53 @@ def _extend_generators_to_loops(tree: ast.AST):
                 setattr(node, fld, out)
 
 
+def _default_into_parameter(tree: ast.AST):
+    """`v = A if p is None else p` (or `v = p if p is not None else A`) with p a parameter that is never rebound and is read nowhere else in the
+    function, v a plain local bound only there and not captured: from here on v is "p, or the default when p was None" and p itself is dead, so
+    the program is the same as the one that gives the parameter its default in place - `if p is None: p = A` - and reads p where v was read."""
+    for fn in [n for n in ast.walk(tree) if isinstance(n, (ast.FunctionDef, ast.AsyncFunctionDef))]:
+        a_ = fn.args
+        params = {x.arg for x in a_.args + a_.kwonlyargs + a_.posonlyargs}
+        nested = set()
+        for n in ast.walk(fn):
+            if n is not fn and isinstance(n, (ast.FunctionDef, ast.AsyncFunctionDef, ast.Lambda, ast.ClassDef)):
+                nested |= _names_in(n)
+        for blk_owner in ast.walk(fn):
+            for fld in ("body", "orelse", "finalbody"):
+                blk = getattr(blk_owner, fld, None)
+                if not isinstance(blk, list) or not blk or not isinstance(blk[0], ast.stmt):
+                    continue
+                for k, st in enumerate(blk):
+                    if not (isinstance(st, ast.Assign) and len(st.targets) == 1 and isinstance(st.targets[0], ast.Name) and isinstance(st.value, ast.IfExp) and
+                            getattr(st, "ann", None) is None):
+                        continue
+                    v, e = st.targets[0].id, st.value
+                    t = e.test
+                    if not (isinstance(t, ast.Compare) and len(t.ops) == 1 and isinstance(t.left, ast.Name) and isinstance(t.comparators[0], ast.Constant) and
+                            t.comparators[0].value is None and isinstance(t.ops[0], (ast.Is, ast.IsNot))):
+                        continue
+                    pn = t.left.id
+                    default, keep = (e.body, e.orelse) if isinstance(t.ops[0], ast.Is) else (e.orelse, e.body)
+                    if not (isinstance(keep, ast.Name) and keep.id == pn and pn in params and pn != v and v not in params and v not in nested and pn not in nested):
+                        continue
+                    if pn in _names_in(default) or v in _names_in(default):
+                        continue
+                    inside = {id(x) for x in ast.walk(st)}
+                    if any(isinstance(x, ast.Name) and x.id == pn and id(x) not in inside for x in ast.walk(fn)):
+                        continue                                    # the parameter is read (or rebound) somewhere else
+                    if sum(1 for x in ast.walk(fn) if isinstance(x, ast.Name) and x.id == v and isinstance(x.ctx, (ast.Store, ast.Del))) != 1:
+                        continue
+                    if any(isinstance(x, (ast.Global, ast.Nonlocal)) and (v in x.names or pn in x.names) for x in ast.walk(fn)):
+                        continue
+                    new = ast.copy_location(ast.If(test=ast.Compare(left=ast.Name(id=pn, ctx=ast.Load()), ops=[ast.Is()], comparators=[ast.Constant(value=None)]),
+                                                   body=[ast.copy_location(ast.Assign(targets=[ast.Name(id=pn, ctx=ast.Store())], value=default), st)], orelse=[]), st)
+                    blk[k] = new
+                    for x in ast.walk(fn):
+                        if isinstance(x, ast.Name) and x.id == v:
+                            x.id = pn
+    ast.fix_missing_locations(tree)
+
+
 def _coalesce_forwarded_temporaries(tree: ast.AST):
     """`t = E` immediately followed by `b = t`, with t a plain local bound only there and read only in later statements of the same block,
     during which b is not bound again: t and b hold the same value wherever t is read, so E is bound to b directly and t disappears
@@ -2652,6 +2699,7 @@ def normalise_tree(tree: ast.AST, computed: Set[str] = frozenset(), records: Opt
                     else:
                         new.append(st)
                 setattr(node, fld, new)
+    _default_into_parameter(tree)
     _lower_match(tree)
     _lower_walrus(tree)
     _extend_generators_to_loops(tree)
